@@ -245,6 +245,7 @@ def run(ck):
     rule_e(ck, u, eng, P)
     rule_f(ck, u, ub, so, P, eng)
     rule_ext(ck, u, ub, so)
+    rule_aux_descriptor(ck, u, sym.Engine(u, sizeof=so, inline=set(), other_units=[ub]))
     rule_atmost(ck, u, sym.Engine(u, sizeof=so, inline={'channel_has_buffer_ext'}, other_units=[ub]))
     rule_g(ck)
     rule_fd_drivers(ck)
@@ -775,6 +776,48 @@ def rule_f(ck, u, ub, so, P, engf):
                     break
         ck.verdict(bad is None, 'C17.f', fn + ':aux', where(fn),
                    'gets into the auxiliary window only, at most the bound, and puts exactly the delivered count from the same place' if bad is None else bad)
+
+
+def rule_aux_descriptor(ck, u, eng):
+    """C17.f  The auxiliary buffer is the CALLER'S: the plumbing may use the window [offset, used) its descriptor designates
+    as scratch, and nothing else - "without touching octets outside the auxiliary buffer's designated region".  So none
+    of the *_aux functions stores into *b, and b itself (not a local copy of the descriptor) is handed only to callees
+    that do not write through it: the *_aux family (judged here in turn) and accessors.  A byte_buffer_rewind(b) "to make
+    room" moves the window to the front of the memory and rewrites the descriptor - with offset > 0 the transfer then
+    runs through octets in front of the window (D61)."""
+    FAM = ('sts_some_aux', 'sts_atmost_aux', 'sts_n_aux', 'sts_drain_aux')
+    b = ('v', 'b')
+    for fn in FAM:
+        f = u.fn(fn)
+        if f is None:
+            ck.broken('C17.f', fn + ':aux-descriptor', '', 'function missing (anchor vanished)')
+            continue
+        try:
+            ps = eng.paths(fn)
+        except (sym.Unsupported, sym.PathLimit) as e:
+            ck.broken('C17.f', fn + ':aux-descriptor', cast.where(f), 'path enumeration: %s' % e)
+            continue
+        bad = None
+        for p in ps:
+            for e in p.stores():
+                if sym.rooted_at(e.name, b):
+                    bad = bad or 'stores into the caller\'s descriptor (%s := %s, %s)' % (fmt(e.name), fmt(e.args[0]), e.where())
+            for e in p.calls():
+                if e.kind != 'call' or e.name in FAM:
+                    continue
+                for i, a in enumerate(e.args):
+                    if strip_cast(a) != b:
+                        continue
+                    # the parameter's declared type (the argument as converted for the call): a pointer to const is read only
+                    an = e.node['inner'][1 + i] if e.node is not None and len(e.node.get('inner', [])) > 1 + i else None
+                    qt = cast.qual_type(an) if an is not None else ''
+                    if 'const' in qt.rsplit('*', 1)[0].split('*')[-1]:
+                        continue
+                    if eng.param_written(e.name, i):
+                        bad = bad or ('hands the caller\'s descriptor to %s (%s), which writes through it: the window [offset, used) the caller designated is moved or resized, '
+                                      'and the transfer runs through memory outside it' % (e.name, e.where()))
+        ck.verdict(bad is None, 'C17.f', fn + ':aux-descriptor', cast.where(f),
+                   'the caller\'s descriptor is read only (copies are worked on); the window it designates stays where it is' if bad is None else bad)
 
 
 def rule_atmost(ck, u, eng):
